@@ -512,6 +512,48 @@ def gen_call_target(rng, env, depth):
     return chain_through(rng, env, depth, obj, tname, True)
 
 
+def bare_target(d):
+    """the designator without the argument list of its last part"""
+    if d[0] == "la":
+        return ("l0", d[1])
+    if d[0] == "l0":
+        return d
+    if d[0] == "p0":
+        return ("p0", d[1], bare_target(d[2]))
+    return ("pa", d[1], d[2], bare_target(d[3]))
+
+
+def gen_if_bare_call(rng, env, depth, lab, sp):
+    """IF whose condition holds function references (nested, keyword arguments, through component
+    chains) guarding a CALL without argument list: plain, labelled, through a binding"""
+    d = gen_call_target(rng, env, depth)
+    if d is None:
+        return None
+    d = bare_target(d)
+    refs = []
+    for _ in range(rng.choice([1, 1, 2])):
+        c = rng.random()
+        if c < 0.55 and env.funcs:
+            f, n = rng.choice(env.funcs)
+            inner = gen_args(rng, env, max(depth - 1, 1), max(n, 1))
+            if rng.random() < 0.4:
+                inner = ("bin", inner, ", ", ("bin", lit(rng.choice(["n", "key"])), "=", gen_expr(rng, env, 1)))
+            r = ("des", ("la", f, inner))
+            if rng.random() < 0.3:
+                r = ("des", ("la", f, r))
+            refs.append(r)
+        elif c < 0.8 and env.objs:
+            obj, tname = rng.choice(env.objs)
+            dd = chain_through(rng, env, max(depth, 2), obj, tname, False)
+            refs.append(("des", dd) if dd is not None else gen_ref(rng, env, depth))
+        else:
+            refs.append(gen_ref(rng, env, depth))
+    cond = ("bin", refs[0], rng.choice([" > ", " == ", " .and. "]), refs[1] if len(refs) > 1 else lit("0"))
+    if rng.random() < 0.3:
+        cond = ("par", cond)
+    return ("ifcall", lab, sp, cond, d)
+
+
 def gen_label(rng, p=0.08):
     return str(rng.choice([10, 20, 100, 999])) if rng.random() < p else None
 
@@ -535,12 +577,17 @@ def gen_simple_stmt(rng, env, depth):
     env.recent = []
     lab = gen_label(rng, env.knobs.get("p_label", 0.06))
     E = lambda d=depth, **kw: gen_expr(rng, env, d, **kw)
-    k = rng.choice(["assign"] * 6 + ["call"] * 5 + ["ifcall"] * 3 + ["ifassign"] * 2 + ["io"] * 3 + ["print"] * 2 +
+    k = rng.choice(["assign"] * 6 + ["call"] * 5 + ["ifcall"] * 3 + ["ifbare"] * 3 + ["ifassign"] * 2 + ["io"] * 3 + ["print"] * 2 +
                    ["alloc", "whereassign", "forallassign", "stop", "plain", "ifarith", "ptr", "format", "goto"])
     if k == "assign":
         return ("form", lab, sp, ("FAssign", gen_lhs(rng, env, depth), E()))
     if k == "ptr":
         return ("form", lab, sp, ("FPtrAssign", gen_lhs(rng, env, 1), gen_ref(rng, env, depth)))
+    if k == "ifbare":
+        st = gen_if_bare_call(rng, env, depth, gen_label(rng, 0.25), sp)
+        if st is not None:
+            return st
+        return ("form", lab, sp, ("FAssign", gen_lhs(rng, env, depth), E()))
     if k in ("call", "ifcall"):
         d = gen_call_target(rng, env, depth)
         if d is None:
